@@ -1,4 +1,5 @@
 import HypatiaProofs.Lemmas.OptimizeSound
+import HypatiaProofs.Lemmas.QueryEndToEnd
 
 /-!
 # C05  Query optimization never changes a query's result
@@ -45,6 +46,19 @@ theorem c05_optimize_succeeds_partial (cat : Catalog) (q : Q) (hw : wellTyped ca
 theorem c05_optimize_well_typed_partial (cat : Catalog) (q : Q) (hw : wellTyped cat q = true)
     (hsafe : OptSafe cat q = true) : wellTyped cat (optimize q) = true :=
   (optimize_sound cat q hw hsafe).1
+
+/-- **Composed with C01/C02** (`c04_end_to_end`): over the index *models* after arbitrary histories of
+every index, the optimised tree succeeds where the unoptimised does and returns the same members.
+Partial for the same reason as above (`wellTyped`, `OptSafe`, evaluated on the specification tables of the
+histories). -/
+theorem c05_end_to_end_partial (hs : List IndexH) (q : Q)
+    (hw : wellTyped (specCatalog hs) q = true) (hsafe : OptSafe (specCatalog hs) q = true) :
+    ∃ r r', applyQM (modelCatalog hs) q = .ok r ∧ applyQM (modelCatalog hs) (optimize q) = .ok r' ∧
+      ∀ d, d ∈ r' ↔ d ∈ r := by
+  obtain ⟨hwo, hv⟩ := optimize_sound _ q hw hsafe
+  obtain ⟨r, hr, he⟩ := (ResEq.ok_iff (ResEq.symm (applyQM_refines hs q))).1 _ (applyQ_val hw)
+  obtain ⟨r', hr', he'⟩ := (ResEq.ok_iff (ResEq.symm (applyQM_refines hs (optimize q)))).1 _ (applyQ_val hwo)
+  exact ⟨r, r', hr, hr', fun d => by rw [← he' d, hv d, he d]⟩
 
 /-- the pairing loops (any arity): with `P` a predicate that the range node built from a matched pair
 turns into the conjunction of the pair, "all operands satisfy `P`" is unchanged by the loop -/
